@@ -8,6 +8,9 @@ Layer S: serpentines and combs (2-4 parallel rows joined at alternating / equal 
 Layer P: all 720 input orders of fixed 6-point configurations that span chunks, the RA seam and the pole.
 Layer F: 2-3 well separated fields (different chunks), each a 3-4 chain in every input permutation (forcing provisional
          groups that are created and then merged) plus 1-2 isolated sites listed last / first / in the middle; both field orders.
+Layer Z: points at Dec = +90 / -90 exactly (the statement has no |Dec| < 90 exclusion): the pole under two RAs with
+         near-polar neighbours within / beyond L, both poles in one all-sky set, chains with a site on the pole (layer B
+         'through-pole'); every ordered tuple.  Violations on such inputs carry the signature suffix ':point-at-pole'.
 Layer M: linking lengths 1 mas, 10 mas, 0.1 arcsec, 1 arcsec: every ordered tuple (exact duplicates included) over six
          compact sites with separations 0, 0.5, 0.8, 1.3, 2.5 x L at five declinations, both poles and across RA 0/360.
 Oracle: connected components of {sep <= L} by union-find on brute-force separations (_sphere.sep_deg).
@@ -38,6 +41,8 @@ RULE = ('Layer A: per (scene, linking length L, chunk size) all n^2+..+n^5 order
         '6 or 10 sites joined as serpentine/comb (4 patterns), each bridge removed in turn, rows along RA or Dec, 6 input orders. Layer P: all 720 '
         'orders of two 6-point configurations. Layer F: 2-3 fields 40 deg apart (4 cell alignments), each a chain of 3-4 sites in all '
         'permutations (product over two fields) + 1-2 isolated sites placed last/first/middle, both field orders. '
+        'Layer Z: alphabets of 7 sites containing Dec=+-90 exactly (pole under two RAs, neighbours at 0.4-2.5 L; both poles): all ordered '
+        'tuples with repetition of 2-4 (thorough 2-5) sites. '
         'Layer M: L in {1 mas, 10 mas, 0.1 arcsec, 1 arcsec} x 7 compact scenes: all ordered '
         'tuples with repetition (2-3 sites quick, 2-5 thorough) over 6 sites whose separations are 0/0.5/0.8/1.3/2.5 x L. A case is non-trivial when at least two distinct positions are within the linking '
         'length of each other (a group that has to be found); distinct = distinct (coordinates in input order, L, chunk size).')
@@ -50,6 +55,10 @@ GUARD = 4000
 
 
 # ------------------------------------------------------------------ one call + oracle
+def _pole_tag(dec):
+    return ':point-at-pole' if bool(np.any(np.abs(np.asarray(dec, dtype=float)) == 90.0)) else ''
+
+
 def check_arrays(ra, dec, L, chunk, sep=None):
     from pydl.pydlutils.spheregroup import spheregroup
     from pydl.pydlutils import PydlutilsException
@@ -72,10 +81,10 @@ def check_arrays(ra, dec, L, chunk, sep=None):
         if 'cosDecMin' in msg:
             g = S.chunk_geometry(ra, dec, S.effective_chunk(L, chunk, True), max_cells=0)
             trig = ':top-decBound-above-90' if g.get('top_above_90') else ''
-            return [('spheregroup:exception:cosDecMin' + trig, msg)], info
-        return [('spheregroup:exception:PydlutilsException', msg)], info
+            return [('spheregroup:exception:cosDecMin' + trig + _pole_tag(dec), msg)], info
+        return [('spheregroup:exception:PydlutilsException' + _pole_tag(dec), msg)], info
     except Exception as e:     # noqa
-        return [('spheregroup:exception:' + type(e).__name__, repr(e))], info
+        return [('spheregroup:exception:' + type(e).__name__ + _pole_tag(dec), repr(e))], info
     try:
         ing, mult, first, nxt = [np.asarray(x) for x in res]
         ok = all(x.shape == (n,) and x.dtype.kind in 'iu' for x in (ing, mult, first, nxt))
@@ -153,6 +162,8 @@ def check_arrays(ra, dec, L, chunk, sep=None):
                 bad.append(('spheregroup:nextgroup', 'chain of group %d from %d visits %s (ends %d), members %s; nextgroup %s'
                             % (g, members[0], seen, j, members, nxt.tolist())))
                 break
+    if bad and bool(np.any(np.abs(dec) == 90.0)):
+        bad = [(sg + ':point-at-pole', msg) for sg, msg in bad]      # the input contains Dec = +-90 exactly
     info['outcome'] = ('bad:' + bad[0][0]) if bad else 'ok:%s-pts:%s-groups' % (n if n < 6 else '6+', ng if ng < 4 else '4+')
     return bad, info
 
@@ -207,7 +218,7 @@ def tasks(tier):
             for cf in (T_CF if T else Q_CF):
                 t.append({'layer': 'A', 'scene': scene, 'L': L, 'cf': cf, 'n': 5 if cf in CLAMPED else nA})
     for scene in CHAIN_SCENES:
-        for d in (DIRS if scene not in ('npole', 'spole') else ['over-pole']):
+        for d in (DIRS if scene not in ('npole', 'spole') else ['over-pole', 'through-pole']):
             for L in (LENGTHS if T else [0.01, 1.0, 15.0]):
                 for cf in ([None, 4.0, 4.5, 8.0] if T else [None, 4.5]):
                     t.append({'layer': 'B', 'scene': scene, 'dir': d, 'L': L, 'cf': cf,
@@ -227,6 +238,13 @@ def tasks(tier):
             for cf in cfs:
                 for shift in ((0, 1, 2, 3) if T else (0, 2)):
                     t.append({'layer': 'F', 'dec0': dec0, 'L': L, 'cf': cf, 'shift': shift, 'full': bool(T)})
+    for sg in (1.0, -1.0):
+        for L in ([1.0 / 3600.0, 0.1, 1.0, 5.0, 15.0] if T else [1.0 / 3600.0, 0.1, 5.0]):
+            for cf in ([None, 4.0, 8.0] if T else [None, 4.5]):
+                t.append({'layer': 'Z', 'kind': 'cap', 'pole': sg, 'L': L, 'cf': cf, 'lens': [2, 3, 4, 5] if T else [2, 3, 4]})
+    for L in ([5.0, 15.0, 30.0] if T else [5.0, 30.0]):
+        for cf in ([None, 4.5, 8.0] if T else [None]):
+            t.append({'layer': 'Z', 'kind': 'both', 'pole': 0.0, 'L': L, 'cf': cf, 'lens': [2, 3, 4, 5] if T else [2, 3, 4]})
     for cfgname in ('seam-chain', 'pole-ring'):
         for L in (LENGTHS if T else [0.1, 5.0]):
             for cf in ([None, 4.0, 8.0] if T else [None]):
@@ -266,9 +284,13 @@ def chain(scene, direction, L, npts, cut):
         pos.append(pos[-1] + st)
     mid = 0.5 * pos[-1]
     pos = [p - mid for p in pos]
-    if direction == 'over-pole':
+    if direction in ('over-pole', 'through-pole'):
         sg = 1.0 if scene == 'npole' else -1.0
-        off = 0.11 * L          # the chain does not put a site exactly on the pole
+        off = 0.11 * L          # 'over-pole': the chain does not put a site exactly on the pole
+        if direction == 'through-pole':
+            off = 0.0           # the middle site is at Dec = +-90 exactly (colatitude 0.0)
+            zero = pos[npts // 2]
+            pos = [p - zero for p in pos]
         pts = []
         for p in pos:
             p = p + off
@@ -504,7 +526,39 @@ def _run_F(acc, task):
         acc.sample(make_case(last[0], last[1], L, chunk))
 
 
+# ------------------------------------------------------------------ layer Z: points at Dec = +90 / -90 exactly
+def pole_sites(kind, sg, L):
+    """Site alphabets containing the pole itself (listed under two different RAs: the same position)."""
+    if kind == 'cap':
+        return [(10.0, sg * 90.0), (250.0, sg * 90.0), (10.0, sg * (90.0 - 0.5 * L)), (200.0, sg * (90.0 - 0.4 * L)),
+                (100.0, sg * (90.0 - 1.3 * L)), (10.0, sg * (90.0 - 1.2 * L)), (300.0, sg * (90.0 - 2.5 * L))]
+    # 'both': both poles in one all-sky set
+    return [(0.0, 90.0), (0.0, -90.0), (123.0, 90.0), (77.0, -90.0), (10.0, 90.0 - 0.8 * L), (200.0, -90.0 + 0.7 * L),
+            (50.0, 0.0)]
+
+
+def _run_Z(acc, task):
+    kind, sg, L, cf = task['kind'], task['pole'], task['L'], task['cf']
+    chunk = _chunk(L, cf)
+    sites = pole_sites(kind, sg, L)
+    n = len(sites)
+    ra = np.array([p[0] for p in sites], dtype=float)
+    dec = np.array([p[1] for p in sites], dtype=float)
+    cells = S.cell_count(ra, dec, S.effective_chunk(L, chunk, True))
+    if cells > GUARD:
+        acc.skip('resource-guard: pole %s L=%g chunk=%s -> %d cells per call' % (kind, L, chunk, cells),
+                 sum(n ** a for a in task['lens']))
+        return
+    full = S.sep_matrix(ra, dec, ra, dec)
+    cfg = ('Z', kind, sg, L, cf)
+    for ln in task['lens']:
+        for tup in itertools.product(range(n), repeat=ln):
+            idx = np.array(tup)
+            _one(acc, cfg, tup, ra[idx], dec[idx], L, chunk, sep=full[np.ix_(idx, idx)])
+    acc.sample(make_case(ra[[0, 2, 3]], dec[[0, 2, 3]], L, chunk))
+
+
 def run_task(task):
     acc = Acc()
-    {'A': _run_A, 'B': _run_B, 'P': _run_P, 'S': _run_S, 'M': _run_M, 'F': _run_F}[task['layer']](acc, task)
+    {'A': _run_A, 'B': _run_B, 'P': _run_P, 'S': _run_S, 'M': _run_M, 'F': _run_F, 'Z': _run_Z}[task['layer']](acc, task)
     return acc
